@@ -771,12 +771,19 @@ fn run_set(args: &Args, set: Vec<Sc>, level_note: &str) -> i32 {
         if !args.wants(sc.name) {
             continue;
         }
+        // quick tier: scenarios with four or more logical threads are closed at preemption
+        // bound 2 (bound 3 does not finish within the per-scenario time cap)
+        let threads = sc.build().1.len();
+        let mut cfg = cfg.clone();
+        if !args.thorough && threads >= 4 {
+            cfg.preemption_bound = 2;
+        }
         let stats = sched::explore(&sc, &cfg);
         sched::file_violations(&mut report, sc.name, &stats);
         report.sub(
             sc.name,
             stats.coverage(&format!(
-                "stateless DFS over all schedules of the scenario's logical threads with preemption bound {}; distinct = distinct observation logs",
+                "stateless DFS over all schedules of the scenario's {threads} logical threads with preemption bound {}; distinct = distinct observation logs",
                 if cfg.preemption_bound == usize::MAX { "unbounded".to_string() } else { cfg.preemption_bound.to_string() }
             )),
         );
